@@ -515,6 +515,20 @@ func (e *Env) call(x *Expr) TTerm {
 			return B(fmt.Sprintf("(and (=> ((_ is VArr) %s) (or (= (scap (varr %s)) 0) (>= (sref (varr %s)) %s))) (=> ((_ is VObj) %s) (>= (vobj %s) %s)))", a[0].S, a[0].S, a[0].S, e.wm0, a[0].S, a[0].S, e.wm0))
 		}
 		return e.fail("fresh of sort %s", a[0].Sort)
+	case "allocated":
+		// allocated(x): every reference in x lies below the current allocation watermark (it exists now)
+		if need(1) {
+			wm := e.famOf("wm")
+			switch a[0].Sort {
+			case "Val":
+				return B("(val.below " + a[0].S + " " + wm + ")")
+			case "Slice":
+				return B("(< (sref " + a[0].S + ") " + wm + ")")
+			case "Int":
+				return B("(< " + a[0].S + " " + wm + ")")
+			}
+		}
+		return e.fail("allocated(value)")
 	case "isOld":
 		// every reference in the value existed before the call
 		if !need(1) {
@@ -689,6 +703,12 @@ func (e *Env) call(x *Expr) TTerm {
 			return I("(gs.byteat " + a[0].S + " " + a[1].S + ")")
 		}
 		return e.fail("byteOf(string, index)")
+	case "funcId":
+		// funcId("pkg.Name"): the value of the named function when it is passed as an argument
+		if len(x.Args) == 1 && x.Args[0].Op == "str" {
+			return I(fmt.Sprint(e.g.FuncID(x.Args[0].Name)))
+		}
+		return e.fail("funcId(\"pkg.Name\")")
 	case "cell":
 		// cell(p): the value stored in the variable p points to (a captured variable, a local whose address is taken)
 		if need(1) && a[0].T != nil {
@@ -896,6 +916,8 @@ func (e *Env) call(x *Expr) TTerm {
 var aliases = map[string][2]string{
 	"decodePost": {"decode.post", "Bool"}, "decodeLastPost": {"decode.lastpost", "Bool"},
 	"strIndex": {"gs.index", "Int"}, "strLastIndex": {"gs.lastindex", "Int"}, "strHasPrefix": {"gs.hasprefix", "Bool"}, "strHasSuffix": {"gs.hassuffix", "Bool"},
+	"strTrim": {"gs.trim", "Str"}, "strTrimLeft": {"gs.trimleft", "Str"}, "strTrimRight": {"gs.trimright", "Str"},
+	"strTrimSpace": {"gs.trimspace", "Str"}, "strTrimSpaceLeft": {"gs.trimspaceleft", "Str"}, "strTrimSpaceRight": {"gs.trimspaceright", "Str"},
 	"strToLower": {"gs.tolower", "Str"}, "strToUpper": {"gs.toupper", "Str"}, "strReplace": {"gs.replace", "Str"},
 	"strQuote": {"gs.quote", "Str"}, "strItoa": {"gs.itoa", "Str"}, "atoiOk": {"atoi.ok", "Bool"}, "atoiVal": {"atoi.val", "Int"},
 	"f64IsInf": {"f64.isinf", "Bool"}, "f64IsNaN": {"f64.isnan", "Bool"}, "f64Floor": {"f64.floor", "F64"}, "f64Ceil": {"f64.ceil", "F64"}, "f64Abs": {"f64.abs", "F64"}, "f64Mod": {"f64.mod", "F64"},
@@ -919,7 +941,8 @@ var aliases = map[string][2]string{
 
 // byKey: uninterpreted functions of string *contents* (their Str arguments are passed as content keys)
 var byKey = map[string]bool{"dec.parse": true, "dec.parseok": true, "dec.unmarshal": true, "dec.unmarshalok": true, "atoi.ok": true, "atoi.val": true,
-	"jnum.int64": true, "jnum.int64ok": true, "jnum.float64ok": true, "gs.quote": true, "gs.tolower": true, "gs.toupper": true, "gs.replace": true}
+	"jnum.int64": true, "jnum.int64ok": true, "jnum.float64ok": true, "gs.trim": true, "gs.trimleft": true, "gs.trimright": true, "gs.trimspace": true, "gs.trimspaceleft": true, "gs.trimspaceright": true,
+	"gs.quote": true, "gs.tolower": true, "gs.toupper": true, "gs.replace": true}
 
 // rawFuncs: functions defined in the prelude or via //@ smt lines, name -> result sort.
 var rawFuncs = map[string]string{
